@@ -292,7 +292,23 @@ example : (parseFile [] (writeTests ['|', '|', '|'] [cDelims])).map Entry.dkey =
 header matches any more (0 tests), and the longer dash line would be taken as the divider. -/
 theorem roundtrip_fails_equals_line_unsuffixed : parseFile [] (writeTests [] [cDelims]) = [] := by decide +kernel
 
-/-- Witness: a line carrying the file's OWN suffix inside an input is still fatal in a suffixed file. -/
+/-- The exact guard for `---` lines that DO carry the file's suffix: inside an input they are harmless up to the
+length of the divider (the divider is at least as long and comes later), inside an expectation only if they
+are shorter.  Here: input line `---|||` under a divider `---|||` (equal length) round-trips … -/
+def cOwnDash : Correction := { cSimple with input := ['a', '\n', '-', '-', '-', '|', '|', '|', '\n', 'b'] }
+example : SimpleS ['|', '|', '|'] cOwnDash :=
+  { hlen := by decide, dlen := by decide, attrs := Or.inl rfl, inputCr := by decide
+    name := { lines := by decide, trimmed := by decide }
+    inputLines := by decide, outputLines := by decide }
+example : (parseFile [] (writeTests ['|', '|', '|'] [cOwnDash])).map Entry.dkey = [cOwnDash.dkey] := by decide +kernel
+
+/-- … while the same line inside the EXPECTATION (equal length, later) is taken as the divider. -/
+theorem roundtrip_fails_equal_dash_in_output :
+    (parseFile [] (writeTests ['|', '|', '|']
+      [{ cSimple with output := ['(', 's', ')', '\n', '-', '-', '-', '|', '|', '|', '\n', '(', 't', ')'] }])).map Entry.dkey
+      ≠ [cSimple.dkey] := by decide +kernel
+
+/-- Witness: a LONGER line carrying the file's own suffix inside an input is fatal in a suffixed file. -/
 theorem roundtrip_fails_own_suffix_in_input :
     (parseFile [] (writeTests ['|', '|', '|']
       [{ cSimple with input := ['a', '\n', '-', '-', '-', '-', '|', '|', '|', '\n', 'b'] }])).map Entry.dkey
